@@ -503,7 +503,7 @@ func runC06(w *W) {
 		w.Count("differs:" + class)
 		w.Report(Finding{Kind: "script", Key: "script@" + class + "@" + strings.SplitN(desc, ":", 2)[0], Input: fmt.Sprintf("%q", trunc(text, 1500)), InputHex: hexs(in), Detail: trunc(detail, 1500)})
 	}
-	nLong := w.pickN(48, 400)
+	nLong := w.pickN(76, 400)
 	for k := 0; k < nLong; k++ {
 		idx, mine := w.Case()
 		if !mine {
@@ -512,7 +512,14 @@ func runC06(w *W) {
 		r := NewRng(w.Seed, uint64(idx), 61)
 		var kinds []*piece
 		nested := []string{"SELECT (SELECT 1) AS a", "SELECT * FROM (SELECT 1)", "SELECT ((1))", "WITH x AS (SELECT 1) SELECT * FROM x", "SELECT a IN (SELECT 1)", "SELECT (WITH 1 AS y SELECT y)",
-			"SELECT [1, (2)], (1, (2, 3)), f(g(h(1)))", "SELECT CASE WHEN a THEN (SELECT 1) END", "SELECT EXISTS (SELECT 1)", "SELECT x -> (x + 1)", "CREATE VIEW v AS SELECT (SELECT 1)", "SELECT 'a;b' -- c;\n"}
+			"SELECT [1, (2)], (1, (2, 3)), f(g(h(1)))", "SELECT CASE WHEN a THEN (SELECT 1) END", "SELECT EXISTS (SELECT 1)", "SELECT x -> (x + 1)", "CREATE VIEW v AS SELECT (SELECT 1)", "SELECT 'a;b' -- c;\n",
+			// per-parser state that a statement may leave behind (depth counters, pools, modes): set operations of every mix,
+			// types in both cast positions, every bracket kind, literals that go through scratch buffers
+			"SELECT 1 UNION ALL SELECT 2 INTERSECT SELECT 3", "SELECT (SELECT 1 UNION ALL SELECT 2 EXCEPT SELECT 3) AS q", "SELECT 1 UNION DISTINCT SELECT 2 UNION ALL SELECT 3",
+			"SELECT CAST(x AS Int32), y::Int8", "SELECT CAST(x AS Tuple(a Int8, b Array(String))), z::Map(String, UInt8)", "CREATE TABLE t (a Nullable(Int8), b Tuple(Int8, String)) ENGINE = Memory",
+			"SELECT a + b * c - d, e || f || g, NOT h AND i", "SELECT 'str\\n', `id`, \"qd\", 1.5, 0x1F, [1, 2], (1, 2)", "SELECT f(x) OVER (PARTITION BY a ORDER BY b) FROM t WINDOW w AS (ORDER BY c)",
+			"SELECT * FROM t ARRAY JOIN a AS b LEFT JOIN u USING (k) WHERE x GROUP BY y WITH TOTALS HAVING z ORDER BY q LIMIT 1 BY r LIMIT 2", "INSERT INTO t (a) VALUES (1)", "ALTER TABLE t ADD COLUMN c Int8, DROP COLUMN d",
+			"SELECT INTERVAL 1 DAY, EXTRACT(YEAR FROM d), CASE WHEN a THEN b ELSE c END, x BETWEEN 1 AND 2, y IS NOT NULL", "EXPLAIN AST SELECT 1", "SELECT {p:UInt8}, $$h$$, -1, - 1, +1"}
 		switch {
 		case k < 2*len(nested):
 			// one nested shape repeated (every second script alternates it with a plain statement)
